@@ -401,3 +401,54 @@ func defValue(ex Exact, s Val, p int64, mode int) string {
 	}
 	return ""
 }
+
+// RoundToPlace rounds the exact non-zero value ex to a multiple of 10^place under
+// mode (the quantize operation formatting needs). The result is a zero of the
+// value's sign, or a finite value; acc as in RoundOnce. No range rule is applied.
+func RoundToPlace(ex Exact, place int64, mode int) Result {
+	neg := ex.IsNeg()
+	l := ex.LeadExp()
+	if l > place {
+		if d, ok := ex.(ExDec); ok && d.Exp >= place {
+			return Result{Val{Finite, neg, d.Coef, d.Exp}, 0}
+		}
+		t, e, sticky := ex.Trunc(l - place + 1)
+		q, rdw := new(big.Int).QuoRem(t, bigTen, new(big.Int))
+		rd := rdw.Int64()
+		e++
+		if rd == 0 && !sticky {
+			return Result{Val{Finite, neg, q, e}, 0}
+		}
+		if roundsUp(mode, neg, rd, sticky, q.Bit(0) == 1) {
+			q.Add(q, bigOne)
+			return Result{Val{Finite, neg, q, e}, accOf(!neg)}
+		}
+		return Result{Val{Finite, neg, q, e}, accOf(neg)}
+	}
+	// |v| < 10^place: 0 or one unit
+	rd, sticky := int64(0), true
+	if l == place {
+		t, _, st := ex.Trunc(1)
+		rd, sticky = t.Int64(), st
+	}
+	if roundsUp(mode, neg, rd, sticky, false) {
+		return Result{Val{Finite, neg, big.NewInt(1), place}, accOf(!neg)}
+	}
+	return Result{Val{Form: Zero, Neg: neg}, accOf(neg)}
+}
+
+func roundsUp(mode int, neg bool, rd int64, sticky, odd bool) bool {
+	switch mode {
+	case ToNearestEven:
+		return rd > 5 || (rd == 5 && (sticky || odd))
+	case ToNearestAway:
+		return rd >= 5
+	case AwayFromZero:
+		return true
+	case ToNegativeInf:
+		return neg
+	case ToPositiveInf:
+		return !neg
+	}
+	return false
+}
